@@ -145,7 +145,8 @@ theorem runPlan_refines {V : Type} {ops : Ops V} {r : Run V} {plan outs : List N
   cases hrc : initRc r.g plan outs with
   | none =>
     exfalso
-    unfold initRc at hrc
+    rw [initRc_spec] at hrc
+    unfold initRcSpec at hrc
     have := incPlan_some r.g plan hplan (fun _ => 0)
     cases hp : incPlan r.g (fun _ => 0) plan with
     | none => rw [hp] at this; simp at this
